@@ -3,6 +3,10 @@ import LemoModel.Frame
 /-
   Line protocol of the C15 model (see harness/hx/c15.go for the implementation side).
 
+  The driver runs the model of THE CODE AS IT IS NOW: `runFixed` / `runFixedC` / `frameStepFixed` /
+  `hsStepFixed` (= `eciesOpenFixed` + the MaxPackageLength bound).  The pre-repair model (`run`,
+  `hsStep`, …) is only the subject of the refutation theorems in LemoProofs/C15.lean.
+
   The AES parameter of the model is instantiated with the identity: the harness puts on the op
   line the stream in which every frame's content is replaced by its raw CBC decryption (the
   padded plaintext, same length) whenever the content length is a multiple of 16 (otherwise the
@@ -58,16 +62,16 @@ def step (s : St) (w : List String) : St × String :=
     (s, s!"max={s.cfg.maxLen} hsmax={s.cfg.hsMaxLen} magic={magic0.toNat}:{magic1.toNat} maxcode={maxCode} hb={heartbeatCode}")
   | ["run", h] =>
     match parseHex h with
-    | some b => (s, showEvs (run id s.cfg b))
+    | some b => (s, showEvs (runFixed id s.cfg b))
     | none => (s, "bad-op")
   | ["runc", h] =>
     match parseChunks h with
-    | some cs => (s, showEvs (runC id s.cfg cs))
+    | some cs => (s, showEvs (runFixedC id s.cfg cs))
     | none => (s, "bad-op")
   | ["allocz", d, p] =>
     match d.toNat?, p.toNat? with
     | some d, some p =>
-      let st := frameStep id flat s.cfg (header d ++ List.replicate p (0 : UInt8))
+      let st := frameStepFixed id flat s.cfg (header d ++ List.replicate p (0 : UInt8))
       let o := match st.out with
         | .needMore => Ev.needMore
         | .err e => Ev.err e
@@ -78,16 +82,16 @@ def step (s : St) (w : List String) : St × String :=
     | _, _ => (s, "bad-op")
   | ["hs", p, m, h] =>
     match flag? p, flag? m, parseHex h with
-    | some p, some m, some b => (s, (hsStep (fun _ => p) (fun _ => m) s.cfg flat b).out.show)
+    | some p, some m, some b => (s, (hsStepFixed (fun _ => p) (fun _ => m) s.cfg flat b).out.show)
     | _, _, _ => (s, "bad-op")
   | ["hsc", p, m, h] =>
     match flag? p, flag? m, parseChunks h with
-    | some p, some m, some cs => (s, (hsStep (fun _ => p) (fun _ => m) s.cfg chunked cs).out.show)
+    | some p, some m, some cs => (s, (hsStepFixed (fun _ => p) (fun _ => m) s.cfg chunked cs).out.show)
     | _, _, _ => (s, "bad-op")
   | ["hsalloc", d] =>
     match d.toNat? with
     | some d =>
-      let st := hsStep (fun _ => false) (fun _ => false) s.cfg flat (header d)
+      let st := hsStepFixed (fun _ => false) (fun _ => false) s.cfg flat (header d)
       (s, s!"{st.out.show} mib={st.alloc / mib}")
     | none => (s, "bad-op")
   | _ => (s, "bad-op")
